@@ -35,6 +35,7 @@ func init() {
 }
 
 func ExecuteTemplate(name string, data any) (string, error) {
+	verifRecordTemplate(name)
 	var bs bytes.Buffer
 	err := templates.ExecuteTemplate(&bs, name, data)
 	if err != nil {
